@@ -36,4 +36,8 @@ def run(ctx: Ctx) -> None:
     from .c04 import commit_rules
     top, _n = find_api_functions(ctx)
     commit_rules(ctx, top, "C06.R5")
+    rep.rule("C06.R6", "typestate exploration: the writer is killed after every atomic step of the extracted effect sequences (both halves of in-place writes), then observed and re-run")
+    n6 = S.crash_sweep(ctx, v, "C06.R6")
+    rep.analysed["crash_points_explored"] = n6
+    rep.floor("C06.R6", n6, 15)
     rep.floor("C06.effects", v.n_effects, 9)
